@@ -7,6 +7,7 @@ THEOREMS = [
     "C14_conf_hint_safe", "C14_conf_details_on_chain", "C14_conf_exact", "C14_conf_exact_emit",
     "C14_reorg_before_reconf", "C14_conf_exact_partial_reorg_refuted",
     "C14_conf_zero_client_details_cleared", "C14_spend_zero_client_details_cleared",
+    "C14_conf_stale_rescan_ignored", "C14_spend_stale_rescan_ignored",
 ]
 MODULE = "LV.Notifier.Props"
 TARGETS = ["theories/Notifier/Props.vo", "theories/Notifier/Exec.vo",
@@ -145,10 +146,14 @@ class Req:
         self.tainted = None      # reason the theorem's hypotheses stopped holding
         self.exists = False      # a registration succeeded (set created)
         self.outstanding = 0     # historical dispatches handed out and not yet answered
+        self.known = None        # height at which the notifier itself learnt the details (tip /
+                                 # accepted rescan answer); later rescan answers are outdated
+        self.tracked = False     # ... and that height is indexed (within the reorg safety limit
+                                 # when learnt): the request is dropped at known + limit
         self.clients = {}        # cid -> dict(n=…, status=None|(h,x), live=True)
 
 
-def predicate(case, stats=None):
+def predicate(case, stats=None, inherit=None, out=None):
     """Returns list of (theorem, message, op index).  Checks, on the observed
     events alone:
       exact     every Confirmed/Spend names a block/spender of the ACTIVE chain and is
@@ -159,7 +164,19 @@ def predicate(case, stats=None):
       hint      cached hint <= height at which the tx is confirmed / outpoint spent.
     The 'exact' and 'hint' clauses are only evaluated while the theorem hypotheses hold
     for the request (valid client hints, truthful rescan answers, reorgs within the
-    safety limit); 'reorg' is unconditional."""
+    safety limit); 'reorg' is unconditional.
+
+    A rescan answer is judged against the dispatched height range it answers (op[4] = first
+    height): "not found" for a tx confirmed BELOW that range is truthful -- the range came from
+    the notifier's own persisted hint, so the missed notification is reported, not excused.
+    Answers arriving after the notifier learnt the details itself (found at tip / an accepted
+    earlier answer) are outdated and may say anything: they must be ignored.
+
+    kind == "restart" cases (a fresh TxNotifier on the same hint cache at the final tip of the
+    parent history, every request re-registered with hint = cached hint): the cached hints are
+    the OUTPUT of the parent run, so neither they nor the client hints excuse anything; the
+    per-request taints are inherited from the parent (inherit = (conf taints, spend taints))."""
+    restart = case.get("kind") == "restart"
     fails = []
     chain = [(b[0], list(b[1])) for b in case["pre"]]     # chain[h-1] = (bid, txs)
     limit = case["limit"]
@@ -187,14 +204,21 @@ def predicate(case, stats=None):
             r.tainted = why
 
     # hints left in the cache by "an earlier run"
-    for i in range(NTX):
-        p = pos_tx(i)
-        if case["ch0"][i] is not None and p and case["ch0"][i] > p[0]:
-            taint(conf[i], "stale initial hint")
-    for j in range(NOP):
-        p = pos_spend(j)
-        if case["sh0"][j] is not None and p and case["sh0"][j] > p[0]:
-            taint(spend[j], "stale initial hint")
+    if restart:
+        ic, isp = inherit if inherit else ([None] * NTX, [None] * NOP)
+        for i in range(NTX):
+            conf[i].tainted = ic[i]
+        for j in range(NOP):
+            spend[j].tainted = isp[j]
+    else:
+        for i in range(NTX):
+            p = pos_tx(i)
+            if case["ch0"][i] is not None and p and case["ch0"][i] > p[0]:
+                taint(conf[i], "stale initial hint")
+        for j in range(NOP):
+            p = pos_spend(j)
+            if case["sh0"][j] is not None and p and case["sh0"][j] > p[0]:
+                taint(spend[j], "stale initial hint")
     prev_ch, prev_sh = case["ch0"], case["sh0"]
 
     for k, o in enumerate(case["ops"]):
@@ -205,7 +229,7 @@ def predicate(case, stats=None):
         if kind == "reg" and okret:
             r = conf[op[1]]
             p = pos_tx(op[1])
-            if p and op[4] > p[0]:
+            if p and op[4] > p[0] and not restart:
                 taint(r, "client hint above confirmation height")
             r.exists = True
             r.clients[op[2]] = {"n": op[3], "status": None, "live": True}
@@ -215,7 +239,7 @@ def predicate(case, stats=None):
         elif kind == "sreg" and okret:
             r = spend[op[1]]
             p = pos_spend(op[1])
-            if p and op[3] > p[0]:
+            if p and op[3] > p[0] and not restart:
                 taint(r, "client hint above spend height")
             r.exists = True
             r.clients[op[2]] = {"status": None, "live": True}
@@ -226,25 +250,45 @@ def predicate(case, stats=None):
             r = conf[op[1]]
             a = op[2]
             p = pos_tx(op[1])
-            if a is None:
-                if p is not None:
+            st = op[4] if len(op) > 4 else 1
+            if r.known is not None:
+                if stats is not None:
+                    stats["outdated_rescan_answers"] = stats.get("outdated_rescan_answers", 0) + 1
+                    if p and p[0] < cur:
+                        stats["outdated_answers_k_blocks_after_inclusion"] = \
+                            stats.get("outdated_answers_k_blocks_after_inclusion", 0) + 1
+            elif a is None:
+                if p is not None and p[0] >= st:
                     taint(r, "rescan answered 'not found' for a confirmed tx")
             elif a[0] <= cur and p != (a[0], a[1]):
                 taint(r, "rescan answer not on the active chain")
             elif a[0] > cur and p is not None:
                 taint(r, "rescan answered 'above tip' for a confirmed tx")
+            elif a[0] <= cur:
+                r.known = a[0]
+                r.tracked = cur < a[0] + limit
             r.outstanding = 0
         elif kind == "supd" and ret == "ok":
             r = spend[op[1]]
             a = op[2]
             p = pos_spend(op[1])
-            if a is None:
-                if p is not None:
+            st = op[4] if len(op) > 4 else 1
+            if r.known is not None:
+                if stats is not None:
+                    stats["outdated_rescan_answers"] = stats.get("outdated_rescan_answers", 0) + 1
+                    if p and p[0] < cur:
+                        stats["outdated_answers_k_blocks_after_inclusion"] = \
+                            stats.get("outdated_answers_k_blocks_after_inclusion", 0) + 1
+            elif a is None:
+                if p is not None and p[0] >= st:
                     taint(r, "rescan answered 'not found' for a spent outpoint")
             elif a[0] <= cur and p != (a[0], a[1]):
                 taint(r, "rescan answer not on the active chain")
             elif a[0] > cur and p is not None:
                 taint(r, "rescan answered 'above tip' for a spent outpoint")
+            elif a[0] <= cur:
+                r.known = a[0]
+                r.tracked = cur < a[0] + limit
             r.outstanding = 0
         elif kind == "cancel":
             c = conf[op[1]].clients.get(op[2])
@@ -262,6 +306,23 @@ def predicate(case, stats=None):
                 j = SPENDS[i]
                 if not spend[j].exists and prev_sh[j] is not None and prev_sh[j] > op[1]:
                     taint(spend[j], "unwatched outpoint spent below its cached hint")
+            for i in op[3]:
+                # found at tip: the notifier knows the details from now on
+                if conf[i].exists:
+                    conf[i].known, conf[i].tracked = op[1], True
+                    conf[i].outstanding = 0
+                if spend[SPENDS[i]].exists:
+                    spend[SPENDS[i]].known, spend[SPENDS[i]].tracked = op[1], True
+                    spend[SPENDS[i]].outstanding = 0
+            for r in conf + spend:
+                # past the reorg safety limit the request is dropped (silently when no
+                # client is left to receive Done)
+                if r.exists and r.known is not None and r.tracked and r.known + limit == op[1]:
+                    for c in r.clients.values():
+                        c["live"] = False
+                    r.exists = False
+                    r.outstanding = 0
+                    r.known = None
             chain.append((op[2], list(op[3])))
             high = max(high, len(chain))
             pending = True
@@ -271,6 +332,9 @@ def predicate(case, stats=None):
             if op[1] + limit <= high:
                 for r in conf + spend:
                     taint(r, "reorg beyond the safety limit")
+            for r in conf + spend:
+                if r.known == op[1]:
+                    r.known = None
             chain.pop()
         cur = len(chain)
 
@@ -326,6 +390,7 @@ def predicate(case, stats=None):
                     c.pop("done", None)
                 r.exists = False
                 r.outstanding = 0
+                r.known = None
 
         # ---- state clauses
         for i, r in enumerate(conf):
@@ -369,6 +434,8 @@ def predicate(case, stats=None):
         for r in conf + spend:
             key = "tainted:" + (r.tainted or "no")
             stats[key] = stats.get(key, 0) + 1
+    if out is not None:
+        out["taints"] = ([r.tainted for r in conf], [r.tainted for r in spend])
     return fails
 
 
@@ -429,8 +496,18 @@ def run(ctx):
     stats = {}
     nfail = 0
     seen = set()
+    taints = {}
     for c in rows:
-        f = predicate(c, stats)
+        if c["kind"] != "restart":
+            o = {}
+            predicate(c, None, out=o)
+            taints[c["ci"]] = o["taints"]
+
+    def pred(c, st=None):
+        return predicate(c, st, inherit=taints.get(c["ci"] - 2000000))
+
+    for c in rows:
+        f = pred(c, stats)
         if f:
             thm, msg, k = f[0]
             sig = "%s: %s" % (thm, msg.split(" (")[0][:60])
@@ -444,8 +521,11 @@ def run(ctx):
                               signature="txnotifier %s" % sig)
     # correspondence
     terms, back = [], []
+    kind_of = {c["ci"]: c["kind"] for c in rows}
     for ri, c in enumerate(rows):
-        enum = c["kind"] == "enum"     # enumerated histories only touch T0 / outpoint 0
+        # enumerated histories (and their restart observation) only touch T0 / outpoint 0
+        enum = c["kind"] == "enum" or (c["kind"] == "restart" and
+                                       kind_of.get(c["ci"] - 2000000) == "enum")
         for i in range(1 if enum else NTX):
             t, idx = project_conf(c, i)
             terms.append(t)
@@ -468,7 +548,7 @@ def run(ctx):
                        "disagreeing_ops": [c["ops"][s] for s in g[:3]],
                        "case": {**c, "ops": c["ops"][:(g[0] + 1) if g else None]}},
                       signature="txnotifier mismatch %s" % side,
-                      failing_input=bool(predicate(c)))
+                      failing_input=bool(pred(c)))
     if not pr["ok"] and not ctx.violations:
         ctx.violation("proof_broken", ", ".join(pr["broken"]) or "Notifier build",
                       {"log": pr["log"][-4000:]}, signature="proof", failing_input=False)
